@@ -299,7 +299,7 @@ def run(ctx):
                 known += f.get("replay", {}).get("ops", [])
         except FileNotFoundError:
             pass
-        ops = known + corpus + [gen(ctx.rng) for _ in range(ctx.scale(700, 40000))]
+        ops = known + corpus + [gen(ctx.rng) for _ in range(ctx.scale(600, 15000))]
     impl = run_parallel(ctx, binary, ops, workers=4)
     ctx.log("implementation done")
     mlines = [model_line(op, impl[i]) for i, op in enumerate(ops)]
